@@ -1,16 +1,17 @@
 /-
 Model of the resource directory `aiocoap.cli.rd` (RFC 9176), as far as property C20 talks
 about it: the two indexes of `CommonRD` (`_by_key`, `_by_path`, rd.py:106-107), registration and
-re-registration (`DirectoryResource.render_post` rd.py:443-460, `CommonRD.initialize_endpoint`
-rd.py:310-414, `_new_pathtail` rd.py:300-308), parameter validation and lifetime
-(`Registration.update_params` rd.py:154-237, `_set_timeout`/`refresh_timeout` rd.py:244-259,
-`delete` rd.py:239-242), the registration resource (`RegistrationDispatchSite.render`,
-`RegistrationResource.render_get/post/put/delete` rd.py:473-523) and the two lookup interfaces
-(rd.py:546-670) with equality filters.
+re-registration (`DirectoryResource.render_post` rd.py:457-474, `CommonRD.initialize_endpoint`
+rd.py:314-418, `_new_pathtail` rd.py:304-312), parameter validation and lifetime
+(`Registration.update_params` rd.py:154-239, `_set_timeout`/`refresh_timeout` rd.py:246-261,
+`delete` rd.py:241-244), the registration resource (`RegistrationDispatchSite.render`,
+`RegistrationResource.render_get/post/put/delete` rd.py:488-527) and the two lookup interfaces
+(rd.py:550-680) with equality filters.  Line numbers refer to the fixed file.
 
-The model follows the code *after* the three `fix:` commits of the C20 round (the new
+The model follows the code *after* the five `fix:` commits of the C20 round (the new
 registration is created before the old one is deleted; an update with a body is refused before its
-parameters are applied; a given base always becomes explicit).
+parameters are applied; a given base always becomes explicit; a valueless base is refused; every
+lookup criterion is applied).
 
 Conventions
 * strings are UTF-8 byte lists (`Str`); a query is the list of `key=value` Uri-Query options in
@@ -115,7 +116,7 @@ deriving Repr, DecidableEq
 
 def State.init : State := { byKey := [], byPath := [], now := 0 }
 
-/-- what lookups iterate over: `CommonRD.get_endpoints()` = `_by_key.values()` (rd.py:416) -/
+/-- what lookups iterate over: `CommonRD.get_endpoints()` = `_by_key.values()` (rd.py:420) -/
 def State.regs (s : State) : List Reg := s.byKey.map (·.2)
 
 -- request bodies ----------------------------------------------------------------------------
@@ -134,7 +135,7 @@ structure Body where
   payload : Payload
 deriving Repr, DecidableEq
 
-/-- `link_format_from_message` (rd.py:420-434) on a request: 4.15 unless Content-Format is 40,
+/-- `link_format_from_message` (rd.py:424-438) on a request: 4.15 unless Content-Format is 40,
 4.00 when the payload does not parse. -/
 def linksOf (b : Body) : Except Nat (List Link) :=
   match b.cf with
@@ -144,7 +145,7 @@ def linksOf (b : Body) : Except Nat (List Link) :=
     | .garbage => .error 400
   | _ => .error 415
 
-/-- `request.opt.content_format is not None or request.payload` (rd.py:492) -/
+/-- `request.opt.content_format is not None or request.payload` (rd.py:496) -/
 def Body.present (b : Body) : Bool := decide (b.cf ≠ .absent) || decide (b.payload ≠ .links [])
 
 -- parameter validation ----------------------------------------------------------------------
@@ -175,11 +176,11 @@ def popSingle {α : Type} (vs : List Str) (conv : Str → Option α) : Except Na
 /-- keys `update_params` refuses: rd.py:163-172 -/
 def forbiddenInUpdate : List Str := [sEp, sD, sPage, sCount, sRt, sHref, sAnchor]
 
-/-- the remaining parameters written into `registration_parameters` (rd.py:219-224) -/
+/-- the remaining parameters written into `registration_parameters` (rd.py:223-228) -/
 def mergeParams (ps : List (Str × List Str)) (q : Query) : List (Str × List Str) :=
   (group q).foldl (fun acc e => aset e.1 e.2 acc) ps
 
-/-- `Registration.update_params` (rd.py:154-237).  `remote` is `network_remote.uri`
+/-- `Registration.update_params` (rd.py:154-239).  `remote` is `network_remote.uri`
 (`none`: `AnonymousHost`).  All checks precede all effects; `error 400` is `BadRequest`.
 On success the lifetime timer is restarted (`_set_timeout` / `refresh_timeout`). -/
 def updateParams (now : Nat) (reg : Reg) (remote : Option Str) (q : Query) (isInitial : Bool) :
@@ -189,14 +190,14 @@ def updateParams (now : Nat) (reg : Reg) (remote : Option Str) (q : Query) (isIn
   -- rd.py:174-186: the network base is needed, and looked up before anything is changed
   if (isInitial || !reg.baseExplicit) && decide (vals sBase q = []) && decide (remote = none) then
     .error 400 else
-  -- rd.py:198-205
+  -- rd.py:198-207
   match popSingle (vals sLt q) parseInt with
   | .error e => .error e
   | .ok setLt =>
     match popSingle (vals sBase q) some with
     | .error e => .error e
     | .ok setBase =>
-      -- rd.py:207-217 (after the fix a given base is always explicit)
+      -- rd.py:209-221 (after the fix a given base is always explicit)
       let lt := setLt.getD reg.lt
       let explicit := setBase.isSome || reg.baseExplicit
       let base := match setBase with
@@ -208,7 +209,7 @@ def updateParams (now : Nat) (reg : Reg) (remote : Option Str) (q : Query) (isIn
 
 -- path allocation ---------------------------------------------------------------------------
 
-/-- `_new_pathtail` (rd.py:300-308): the first `i ≥ start` that is not in use.  Each number
+/-- `_new_pathtail` (rd.py:304-312): the first `i ≥ start` that is not in use.  Each number
 found in use is struck from the list, so `fuel = used.length` always suffices. -/
 def firstFree (used : List Nat) : Nat → Nat → Nat
   | 0, i => i
@@ -227,7 +228,7 @@ def wordsAux (cur : Str) : Str → List Str
 
 def words (s : Str) : List Str := wordsAux [] s
 
-/-- the `matches` closure of the lookups for a plain search value (rd.py:556-572) -/
+/-- the `matches` closure of the lookups for a plain search value (rd.py:562-576) -/
 def valMatches (k v x : Str) : Bool :=
   if k = sIf ∨ k = sRt then (words x).any (fun w => decide (w = v)) else decide (x = v)
 
@@ -236,13 +237,13 @@ def natStr (n : Nat) : Str := (Nat.toDigits 10 n).map Char.toNat
 /-- `Registration.href` (rd.py:122-124) -/
 def Reg.href (r : Reg) : Str := sRegPrefix ++ natStr r.path ++ sSlash
 
-/-- `get_based_links` (rd.py:270-285) for links with an absolute-path reference, no `anchor`
+/-- `get_based_links` (rd.py:272-287) for links with an absolute-path reference, no `anchor`
 attribute, and a base of the form `scheme://authority`: `urljoin(base, href) = base ++ href`,
 and the implied anchor is `base ++ "/"`. -/
 def Reg.basedLinks (r : Reg) : List Link :=
   r.links.map (fun l => { href := r.base ++ l.href, attrs := l.attrs ++ [(sAnchor, r.base ++ sSlash)] })
 
-/-- `_link_matches` (rd.py:542-543) -/
+/-- `_link_matches` (rd.py:546-547) -/
 def linkMatches (l : Link) (k v : Str) : Bool :=
   l.attrs.any (fun a => decide (a.1 = k) && valMatches k v a.2)
 
@@ -252,12 +253,12 @@ def paramMatches (r : Reg) (k v : Str) : Bool :=
   | some vs => vs.any (valMatches k v)
   | none => false
 
-/-- one `search_key=search_value` condition of the endpoint lookup (rd.py:574-596) -/
+/-- one `search_key=search_value` condition of the endpoint lookup (rd.py:578-606) -/
 def epCond (r : Reg) (k v : Str) : Bool :=
   if k = sHref then decide (r.href = v) || r.basedLinks.any (fun l => decide (l.href = v))
   else paramMatches r k v || r.basedLinks.any (fun l => linkMatches l k v)
 
-/-- one condition of the resource lookup (rd.py:634-655) -/
+/-- one condition of the resource lookup (rd.py:641-665) -/
 def resCond (r : Reg) (l : Link) (k v : Str) : Bool :=
   if k = sHref then decide (l.href = v) || decide (r.href = v)
   else linkMatches l k v || paramMatches r k v
@@ -267,7 +268,7 @@ def lookupEp (s : State) (q : Query) : List Reg :=
   s.regs.filter (fun r => q.all (fun kv => epCond r kv.1 kv.2))
 
 /-- the implied anchor always equals `urljoin(link.href, "/")` here, so it is elided
-(rd.py:662-668) -/
+(rd.py:670-677) -/
 def stripAnchor (l : Link) : Link := { l with attrs := l.attrs.filter (fun a => decide (a.1 ≠ sAnchor)) }
 
 /-- `ResourceLookupInterface.render_get` without pagination -/
@@ -315,28 +316,28 @@ deriving Repr, DecidableEq
 /-- `DirectoryResource.render_post` + `initialize_endpoint`, up to the point where side effects
 start: the registration that would be stored, or the error code. -/
 def registerReg (s : State) (remote : Option Str) (q : Query) (body : Body) : Except Nat Reg :=
-  match linksOf body with                                            -- rd.py:444
+  match linksOf body with                                            -- rd.py:472
   | .error e => .error e
   | .ok links =>
-    match popSingle (vals sEp q) some with                            -- rd.py:320-322
+    match popSingle (vals sEp q) some with                            -- rd.py:324-326
     | .error e => .error e
     | .ok none => .error 400
     | .ok (some ep) =>
-      match popSingle (vals sD q) some with                           -- rd.py:323
+      match popSingle (vals sD q) some with                           -- rd.py:327
       | .error e => .error e
       | .ok d =>
         let key : Key := (ep, d)
-        let path := match aget key s.byKey with                       -- rd.py:368-374
+        let path := match aget key s.byKey with                       -- rd.py:372-378
           | some old => old.path
           | none => newPath (s.byPath.map (·.1))
-        let static := group (q.filter (fun e => decide (e.1 = sEp ∨ e.1 = sD)))   -- rd.py:314-318
+        let static := group (q.filter (fun e => decide (e.1 = sEp ∨ e.1 = sD)))   -- rd.py:318-322
         let fresh : Reg := { ep := ep, d := d, path := path, lt := 90000, base := [],
                              baseExplicit := false, params := static, links := [],
                              refreshedAt := s.now }                   -- rd.py:139-150
         match updateParams s.now fresh remote
             (q.filter (fun e => decide (e.1 ≠ sEp ∧ e.1 ≠ sD))) true with   -- rd.py:152
         | .error e => .error e
-        | .ok r => .ok { r with links := links }                      -- rd.py:458
+        | .ok r => .ok { r with links := links }                      -- rd.py:472
 
 /-- the validation half of every request -/
 def decideOp (s : State) (op : Op) : Action :=
@@ -346,10 +347,10 @@ def decideOp (s : State) (op : Op) : Action :=
     | .error e => .fail e
     | .ok r => .write r (.created r.path)
   | .update path remote q body =>
-    match aget path s.byPath with                                     -- rd.py:514-519
+    match aget path s.byPath with                                     -- rd.py:520-523
     | none => .fail 404
     | some reg =>
-      if body.present then .fail 400 else                             -- rd.py:491-493 (fixed order)
+      if body.present then .fail 400 else                             -- rd.py:495-499 (fixed order)
       match updateParams s.now reg remote q false with
       | .error e => .fail e
       | .ok r => .write r .changed
@@ -357,7 +358,7 @@ def decideOp (s : State) (op : Op) : Action :=
     match aget path s.byPath with
     | none => .fail 404
     | some reg =>
-      match linksOf body with                                         -- rd.py:501
+      match linksOf body with                                         -- rd.py:505
       | .error e => .fail e
       | .ok links =>
         match updateParams s.now reg remote q false with
@@ -377,8 +378,8 @@ def decideOp (s : State) (op : Op) : Action :=
 
 -- expiry --------------------------------------------------------------------------------------
 
-/-- Every registration whose timer is due runs its `delete()` (rd.py:239-242 with the closure
-rd.py:392-395): its path leaves `_by_path`, its key leaves `_by_key`. -/
+/-- Every registration whose timer is due runs its `delete()` (rd.py:241-244 with the closure
+rd.py:386-389): its path leaves `_by_path`, its key leaves `_by_key`. -/
 def purge (c : Cfg) (s : State) : State :=
   let dead := s.regs.filter (fun r => !r.live c s.now)
   { s with byKey := s.byKey.filter (fun e => decide (e.1 ∉ dead.map Reg.key)),
@@ -391,7 +392,7 @@ def applyAction (c : Cfg) (s : State) : Action → State × Resp
   | .fail code => (s, .err code)
   | .write r resp =>
     -- register: `oldreg.delete()` if there was one, `_by_key[key] = reg`, `_by_path[path] = reg`
-    -- (rd.py:401-412); update: the object under `r.key` / `r.path` now has the new field values.
+    -- (rd.py:405-416); update: the object under `r.key` / `r.path` now has the new field values.
     -- Then timers that are already due (lt + grace ≤ 0) fire.
     (purge c { s with byKey := aset r.key r s.byKey, byPath := aset r.path r s.byPath }, resp)
   | .remove r =>
